@@ -76,7 +76,7 @@ fn u32_boundary() -> BoxedStrategy<u32> {
     .boxed()
 }
 
-fn act_strategy() -> BoxedStrategy<Act> {
+pub fn act_strategy() -> BoxedStrategy<Act> {
     prop_oneof![
         3 => (any::<bool>(), proptest::option::weighted(0.75, u32_boundary()), any::<bool>())
             .prop_map(|(wait, open, no_ports)| Act::RealConnect { wait, open, no_ports }),
@@ -107,7 +107,7 @@ fn act_strategy() -> BoxedStrategy<Act> {
     .boxed()
 }
 
-fn peer_cfg() -> BoxedStrategy<RefCfg> {
+pub fn peer_cfg() -> BoxedStrategy<RefCfg> {
     (
         prop_oneof![Just(0u64), Just(2_000u64), Just(60_000u64), Just(1u64), Just(u64::MAX), Just(86_400_000u64)],
         prop_oneof![4u32..=64, Just(4u32), Just(16_384u32), Just(u32::MAX - 16)],
@@ -118,7 +118,7 @@ fn peer_cfg() -> BoxedStrategy<RefCfg> {
         .boxed()
 }
 
-fn real_cfg() -> BoxedStrategy<GCfg> {
+pub fn real_cfg() -> BoxedStrategy<GCfg> {
     (
         prop_oneof![8u32..=64, Just(4u32), Just(64u32)],
         prop_oneof![64u32..=256, Just(16u32), Just(256u32)],
@@ -156,36 +156,36 @@ pub fn strategy(tier: Tier) -> BoxedStrategy<Case> {
         .boxed()
 }
 
-struct Port {
+pub struct Port {
     /// Port number on the real endpoint / on the peer.
-    real: u32,
-    peer: u32,
-    tx: Option<chmux::Sender>,
-    rx: Option<chmux::Receiver>,
+    pub real: u32,
+    pub peer: u32,
+    pub tx: Option<chmux::Sender>,
+    pub rx: Option<chmux::Receiver>,
     /// Peer told real that it closed / finished its receiver.
-    peer_recv_closed: bool,
-    peer_send_finished: bool,
-    peer_recv_finished: bool,
-    real_rx_closed: bool,
+    pub peer_recv_closed: bool,
+    pub peer_send_finished: bool,
+    pub peer_recv_finished: bool,
+    pub real_rx_closed: bool,
     /// Credits the peer may still use towards the real endpoint on this port.
-    avail: u64,
-    msg_ctr: u32,
+    pub avail: u64,
+    pub msg_ctr: u32,
 }
 
 pub struct Conv {
-    peer: RefPeer,
-    client: Option<chmux::Client>,
-    listener: Option<chmux::Listener>,
-    ports: Vec<Port>,
-    used_peer_ports: std::collections::HashSet<u32>,
-    real_rb: u64,
-    real_cs: u64,
+    pub peer: RefPeer,
+    pub client: Option<chmux::Client>,
+    pub listener: Option<chmux::Listener>,
+    pub ports: Vec<Port>,
+    pub used_peer_ports: std::collections::HashSet<u32>,
+    pub real_rb: u64,
+    pub real_cs: u64,
     pub tuples: std::collections::BTreeSet<String>,
     pub skipped: u32,
     pub executed: u32,
 }
 
-type R<T> = Result<T, (String, String)>;
+pub type R<T> = Result<T, (String, String)>;
 
 fn err<T>(sig: &str, msg: impl Into<String>) -> R<T> {
     Err((sig.to_string(), msg.into()))
@@ -259,7 +259,7 @@ impl Conv {
     }
 
     /// Collects credits the real endpoint returned and checks their encoding/port.
-    fn absorb_credits(&mut self) -> R<()> {
+    pub fn absorb_credits(&mut self) -> R<()> {
         let seen = std::mem::take(&mut self.peer.credits_seen);
         for (port, credits) in seen {
             match self.ports.iter_mut().find(|p| p.peer == port) {
@@ -279,7 +279,7 @@ impl Conv {
         Ok(())
     }
 
-    fn fresh_peer_port(&mut self, want: u32) -> u32 {
+    pub fn fresh_peer_port(&mut self, want: u32) -> u32 {
         let mut p = want;
         while self.used_peer_ports.contains(&p) {
             p = p.wrapping_add(1);
@@ -380,7 +380,7 @@ impl Conv {
         Ok(())
     }
 
-    async fn act(&mut self, a: &Act) -> R<bool> {
+    pub async fn act(&mut self, a: &Act) -> R<bool> {
         match a {
             Act::RealConnect { wait, open, no_ports } => {
                 let Some(client) = self.client.clone() else { return Ok(false) };
@@ -946,6 +946,29 @@ pub struct ConvResult {
     pub skipped: u32,
     pub frames: u64,
     pub log: Vec<String>,
+}
+
+/// Establishes the connection between a real endpoint and the reference peer.
+pub async fn setup(real: &GCfg, peer_cfg: &RefCfg, peer_version: u8) -> Result<(SimLink, Conv, tokio::task::JoinHandle<crate::engine::gen::MuxResult>), (String, String)> {
+    let (link, ea, eb) = SimLink::plain(8);
+    let mut peer = RefPeer::new(eb, peer_cfg.clone(), peer_version);
+    let (mux_res, hs) = tokio::join!(ChMux::new(real.to_cfg(), ea.sink, ea.stream), peer.handshake());
+    hs.map_err(|e| ("setup/handshake".to_string(), e))?;
+    let (mux, client, listener) = mux_res.map_err(|e| ("setup/handshake".to_string(), e.to_string()))?;
+    let run = spawn_actor(mux.run());
+    let conv = Conv {
+        real_rb: real.receive_buffer as u64,
+        real_cs: real.chunk_size as u64,
+        peer,
+        client: Some(client),
+        listener: Some(listener),
+        ports: Vec::new(),
+        used_peer_ports: Default::default(),
+        tuples: Default::default(),
+        skipped: 0,
+        executed: 0,
+    };
+    Ok((link, conv, run))
 }
 
 pub async fn converse(case: &Case) -> ConvResult {
